@@ -170,7 +170,7 @@ impl Scenario for BlockLockstep {
         let wrap_to_zero = high && cart_type != 0 && rng.chance(1, 16);
         let bank = if cart_type == 0 { 1 } else if wrap_to_zero { 0 } else { 1 + rng.below(banks as u64 - 1) as usize };
         // block body
-        let avoid_rom_regs = high && !rng.chance(1, 50);
+        let avoid_rom_regs = high && !rng.chance(1, 5);
         let max_body = if thorough { rng.pick(&[0u64, 1, 3, 8, 24, 60, 200]) } else { rng.pick(&[0u64, 1, 2, 4, 8, 24]) };
         // operand grid: in 256 of every 400 passes over the encodings the focus instruction is reached with (A, operand)
         // taken systematically from a 16 x 16 grid of boundary values (all flag states are drawn), with nothing in front of it
@@ -496,19 +496,18 @@ impl Scenario for BlockLockstep {
                     // a block that reaches into the switchable bank and writes a bank register while it runs
                     let blk_len = j.cache_entries().iter().find(|e| e.2 as u32 == before.ip).map(|e| e.3).unwrap_or(0);
                     let reaches_high = before.ip as usize >= 0x4000 || before.ip as usize + blk_len > 0x4000;
-                    // ... and thereby remaps the bank it is running from (known-finding class; real hardware and the interpreter
-                    // fetch the next instruction from the new bank, translated code finishes the old block)
+                    // ... and thereby remaps the bank it is running from (probe only: since the repair both engines fetch the next
+                    // instruction from the new bank)
                     let bank_writes = ti.iter().filter(|e| e.0 == 1 && e.1 >= 0x2000 && e.1 < 0x8000).count();
                     let self_switch = case.get("cart_type") != 0 && reaches_high && bank_writes > 0 && (i.rom_bank() != bank_before || bank_writes > 1);
                     let cell = (fenc as u64) << 24 | ((before.af as u64 >> 4) & 0xf) << 20 | region_of(before.hl as u16) << 16 | region_of(before.sp as u16) << 12 | (case.get("age") as u64) << 4 | hit as u64;
                     match (&ej, &ei) {
                         (Exec::Panicked(pj), Exec::Panicked(pi)) => {
                             ctx.cov.hit("both_panicked");
-                            // out of generator scope (e.g. running past the end of ROM): only "both fail" is compared
-                            // same kind of failure = same leading words of the message ("Invalid OP", "TRIED TO EXECUTE", "index out of
-                            // bounds"): which undefined opcode is met first can differ, because the translator fails before anything
-                            // has run while the interpreter fails after running the instructions in front of it
-                            let msg = |s: &str| s.split(" @ ").next().unwrap_or("").split(|c: char| c == ':' || c == '#').next().unwrap_or("").trim().to_string();
+                            // out of generator scope (e.g. running past the end of ROM, an undefined opcode as the first instruction):
+                            // both must fail, and with the same message (location stripped) - since both engines end a block in front
+                            // of an undefined opcode they meet the same one
+                            let msg = |s: &str| s.split(" @ ").next().unwrap_or("").trim().to_string();
                             if msg(pj) != msg(pi) && !focus_c02 {
                                 out.push(Violation::new("C01", format!("C01/panic-class-differs"), format!("op {}: jit panicked '{}', interpreter '{}'", opi, pj, pi)));
                             }
@@ -527,7 +526,7 @@ impl Scenario for BlockLockstep {
                             }
                             if !focus_c02 {
                                 let who = if matches!(ej, Exec::Panicked(_)) { "jit" } else { "interpreter" };
-                                let sig = if self_switch { "C01/block-in-switchable-bank-writes-bank-register".to_string() } else { format!("C01/one-engine-panicked/{}/{}", who, p) };
+                                let sig = format!("C01/one-engine-panicked/{}/{}", who, p);
                                 out.push(Violation::new("C01", sig, format!("op {}: only the {} engine panicked: {}", opi, who, p)));
                             }
                             return out;
@@ -565,10 +564,9 @@ impl Scenario for BlockLockstep {
                             if matches!(sm83::terminator_kind(term), 1 | 4 | 6 | 9) {
                                 ctx.cov.mark("cond_outcomes", (term as u64) << 4 | ((before.af as u64 >> 4) & 0xf));
                             }
-                            if focus_c02 && self_switch {
-                                // the two engines did not run the same instructions (C01's known-finding class): C02's premise does not hold
-                                ctx.cov.hit("c02_not_compared_block_remapped_its_own_bank");
-                                return out;
+                            if self_switch {
+                                // both engines end the block right after the remapping instruction (repaired defect, A.3 no. 28)
+                                ctx.cov.hit("probe.block_remapped_its_own_bank");
                             }
                             if focus_c02 {
                                 let (cj, ci) = if mode == 1 { (snj.get("last_block_cycles"), sni.get("last_block_cycles")) } else { (snj.get("cycles"), sni.get("cycles")) };
@@ -592,7 +590,7 @@ impl Scenario for BlockLockstep {
                                 ctx.cov.add("sim_clocks", 4 * ci);
                             } else {
                                 if mode == 0 && status_class(*sj) != status_class(*si) {
-                                    let sig = if self_switch { format!("C01/block-in-switchable-bank-writes-bank-register") } else { format!("C01/status") };
+                                    let sig = format!("C01/status");
                                     out.push(Violation::new("C01", sig, format!("op {}: status jit {} vs interpreter {}", opi, sj, si)));
                                     return out;
                                 }
@@ -604,7 +602,7 @@ impl Scenario for BlockLockstep {
                                 }
                                 let skip: &[&str] = if time_diverged { &TIME_FIELDS } else { &SKIP_CYCLES };
                                 if let Some(field) = snj.diff_field(&sni, skip) {
-                                    let sig = if self_switch { format!("C01/block-in-switchable-bank-writes-bank-register") } else { format!("C01/state/{}", field) };
+                                    let sig = format!("C01/state/{}", field);
                                     out.push(Violation::new("C01", sig, format!("op {} (exec #{}, cache {}): {} (jit vs interpreter); pc-in {:#06x}", opi, execs, if hit { "hit" } else { "miss" }, snj.diff(&sni, skip).unwrap(), before.ip)));
                                     return out;
                                 }
